@@ -112,6 +112,12 @@ def compare(ctx, key, got, want, what, case, rel=1e-9):
         if not (got != got or math.isinf(got)):
             ctx.violation("undefined-gives-number|" + key, "%s = %r although the definition is undefined" % (what, got), case)
         return
+    if abs(want) > 1e10:
+        # a denominator that is zero up to rounding (e.g. a mean of -x and x): the quotient is numerical noise on both sides
+        ctx.count("undefined_checks")
+        if not (got != got or math.isinf(got) or abs(got) > 1e6):
+            ctx.violation("undefined-gives-number|" + key, "%s = %r although the denominator vanishes (reference %r)" % (what, got, want), case)
+        return
     # (absolute tolerance: a square root of a variance that is zero up to rounding amplifies 1e-17 to 1e-8)
     if not vutil.num_equal(got, want, rel, 2e-7):
         ctx.violation("definition|" + key, "%s = %r, definition gives %r" % (what, got, want), case)
